@@ -60,6 +60,20 @@ func buildQuery(sp *Specs, o *Obligation, models bool) string {
 		}
 	}
 	addTokens(body.String())
+	// symbols hidden inside spec-level definitions (define-fun) count as used when the defined name is
+	defUsed := func() {
+		for changed := true; changed; {
+			changed = false
+			for _, l := range sp.SMT {
+				if m := smtFunRe.FindStringSubmatch(l); m != nil && strings.HasPrefix(m[1], "define-fun") && used[m[2]] && !used["\x00"+m[2]] {
+					used["\x00"+m[2]] = true
+					addTokens(l)
+					changed = true
+				}
+			}
+		}
+	}
+	defUsed()
 	// axioms from specs: included when they share a spec-declared symbol with the query (two rounds)
 	var axioms []string
 	taken := map[int]bool{}
@@ -79,6 +93,7 @@ func buildQuery(sp *Specs, o *Obligation, models bool) string {
 				taken[i] = true
 				axioms = append(axioms, ax.Text)
 				addTokens(ax.Text)
+				defUsed()
 			}
 		}
 	}
@@ -96,10 +111,12 @@ func buildQuery(sp *Specs, o *Obligation, models bool) string {
 			}
 		}
 	}
-	for i, l := range o.Decls.lines {
-		if inc[i] {
-			decls.WriteString(l.text)
-			decls.WriteString("\n")
+	for pass := 0; pass < 2; pass++ {
+		for i, l := range o.Decls.lines {
+			if inc[i] && (strings.HasPrefix(l.text, "(declare") == (pass == 0)) {
+				decls.WriteString(l.text)
+				decls.WriteString("\n")
+			}
 		}
 	}
 	var q strings.Builder
